@@ -1,6 +1,70 @@
-(* Props/Properties_C14.v - statements only; see DESIGN.md section 8 C14. *)
-From Adm Require Import Heap.Exec Heap.More gen.PlansGen Heap.PlanChecks.
+(* Props/Properties_C14.v - C14: reassignIds renumbers consistently without disturbing the document.
+   Statements only; proofs in Heap/Reassign.v.  The model of reassignIds (Heap/More.v, after
+   src/utilities/id_assignment.cpp) is tied to libadm by the differential run (snapshots compared after the call, the
+   canonical-numbering, reserved/silent-unchanged and idempotence oracles on libadm's own snapshots).
+   Proved for all inputs, for the building blocks every step of reassignIds is made of: a set(Id) on an element whose
+   ID is neither reserved nor silent, the undefine pass and reassignBlockFormats change IDs only - kind, parent, type
+   descriptor, every reference list, times, parameters and the times and payloads of the blocks stay, the documents
+   stay, protected IDs stay - whatever their outcome; and the numbering loop of programmes, contents and objects
+   hands out next, next+1, ... in document order to exactly the elements outside the reserved range.
+   Partial (suffix _partial): the composition of these steps for pack, stream, channel, track formats and track UIDs,
+   uniqueness after the call and idempotence are decided by the differential run only. *)
+From Adm Require Import Heap.Exec Heap.More Heap.Frame Heap.Reassign.
+Local Open Scope N_scope.
 
-Theorem C14_plans_recognised : plans_problems = [] /\ add_plan_complete gen_plans = true /\ plans_typed gen_plans = true.
-Proof. exact (conj plans_recognised (conj gen_add_plan_complete gen_plans_typed)). Qed.
-Print Assumptions C14_plans_recognised.
+Theorem C14_set_id_changes_ids_only : forall h i s s' r e, get_elem s h = Some e ->
+  protected_id (ekind e) (eid e) = false -> set_id h i s = (s', r) -> ids_only s s'.
+Proof. exact set_id_ids_only. Qed.
+Print Assumptions C14_set_id_changes_ids_only.
+
+Theorem C14_reassign_blocks_changes_ids_only : forall h s s' r, reassign_blocks h s = (s', r) -> ids_only s s'.
+Proof. exact (fun h s s' r H => reassign_blocks_ids_only h s s' r H). Qed.
+Print Assumptions C14_reassign_blocks_changes_ids_only.
+
+Theorem C14_undefine_changes_ids_only : forall hs s s' r,
+  m_iter (fun h => e <~ m_get h ;;; if is_reserved (ekind e) (eid e) then ret tt
+                                    else if kind_eqb (ekind e) KUid then ret tt
+                                    else set_id h (undef_id (ekind e))) hs s = (s', r) -> ids_only s s'.
+Proof. exact (fun hs s s' r H => undefine_ids_only hs s s' r H). Qed.
+Print Assumptions C14_undefine_changes_ids_only.
+
+(* what "IDs only" means *)
+Theorem C14_ids_only_meaning : forall s s', ids_only s s' ->
+  docs s' = docs s /\
+  forall h e, get_elem s h = Some e -> exists e', get_elem s' h = Some e' /\
+    ekind e' = ekind e /\ eparent e' = eparent e /\ erefs e' = erefs e /\ eparams e' = eparams e /\ etag e' = etag e /\
+    (protected_id (ekind e) (eid e) = true -> eid e' = eid e).
+Proof.
+  intros s s' [H D]. split; auto. intros h e He. specialize (H h). rewrite He in H.
+  destruct (get_elem s' h) as [e'|]; [|contradiction]. exists e'. unfold same_but_ids in H. intuition.
+Qed.
+Print Assumptions C14_ids_only_meaning.
+
+(* the numbering loop of simple_renumber is [rloop] ... *)
+Theorem C14_numbering_loop : forall k limit hs (init : M N) s,
+  fold_left (fun (acc : M N) h => n <~ acc ;;; rstep k limit n h) hs init s = bind init (rloop k limit hs) s.
+Proof. exact fold_is_rloop. Qed.
+Print Assumptions C14_numbering_loop.
+
+Theorem C14_simple_renumber_is_undefine_then_loop : forall k hs next limit,
+  simple_renumber k hs next limit =
+  (undefine_ids hs ;;; fold_left (fun (acc : M N) h => n <~ acc ;;; rstep k limit n h) hs (ret next)).
+Proof. exact simple_renumber_unfold. Qed.
+Print Assumptions C14_simple_renumber_is_undefine_then_loop.
+
+(* ... which numbers densely, in list order, exactly the elements outside the reserved range *)
+Theorem C14_dense_numbering_partial : forall k limit, In k [KProg; KCont; KObj] -> forall hs n s s' n',
+  NoDup hs -> (forall h e, In h hs -> get_elem s h = Some e -> ekind e = k) -> (forall h, In h hs -> get_elem s h <> None) ->
+  rloop k limit hs n s = (s', inl n') ->
+  let skip := fun h => match get_elem s h with Some e => is_reserved k (eid e) | None => true end in
+  n' = n + N.of_nat (length (issued skip hs n)) /\
+  (forall h m, In (h, m) (issued skip hs n) -> exists e', get_elem s' h = Some e' /\ eid e' = mkId 0 m 0) /\
+  (forall h, ~ In h (map fst (issued skip hs n)) -> get_elem s' h = get_elem s h).
+Proof. exact rloop_dense. Qed.
+Print Assumptions C14_dense_numbering_partial.
+
+Theorem C14_issued_numbers_are_dense_and_ordered : forall skip hs n,
+  map snd (issued skip hs n) = map (fun i => n + N.of_nat i) (seq 0 (length (issued skip hs n))) /\
+  map fst (issued skip hs n) = filter (fun h => negb (skip h)) hs.
+Proof. exact (fun skip hs n => conj (issued_dense skip hs n) (issued_order skip hs n)). Qed.
+Print Assumptions C14_issued_numbers_are_dense_and_ordered.
